@@ -22,12 +22,31 @@ Three-way check per generated model (documented export subset):
 
 Known defects of the pinned tree (generator avoids their triggers; witnesses in corpus/C15):
   D29_kwarg_name   a keyword-argument NAME that is also read as a rewritten global in the same scope
-  comp_scope       a list comprehension that follows a sibling lambda/def/genexp in its function (py>=3.12)
-  comp_var         the variable of a list comprehension is also read as a global in the formula (py>=3.12)
-  ifexp_order      `a if c else b` with function scopes in both a and c (libcst vs symtable order)
-  builtin_child    a child space / ItemSpace parameter named like a built-in is not prefixed
-  self_local       a local variable / parameter named `self`
   (modelx itself rejects global names in default values of cells parameters: never generated)
+Repaired in /repo (the shapes are generated; witnesses stay in corpus/C15, reproducers in corpus/fixed/C15_<key>.py):
+  comp_scope       a list comprehension that follows a sibling lambda/def/genexp in its function (py>=3.12) looked its
+                   names up in the sibling's symbol table; now in the table of the enclosing scope
+  comp_var         the variable of a list comprehension that is also read as a global in the formula (py>=3.12) was
+                   rewritten to self.k; now it is local to the comprehension.  Still not generated (c15gen.triggers
+                   cpython3121_comp_sibling, NOT a modelx defect): a name bound by one inlined comprehension and read as a
+                   global only in a later inlined comprehension of the same function - CPython 3.12.1 compiles it as a
+                   local of the function, the model itself raises UnboundLocalError
+  ifexp_order      `a if c else b` with function scopes in both a and c: libcst lists the scopes of a first, symtable those
+                   of c, the symbol tables were paired crosswise (SyntaxError at import / AssertionError at export); the
+                   transformer now sorts the scopes of c before those of a
+  self_local       a parameter / local variable / nested function / lambda parameter / comprehension variable named `self`
+                   hid the instance parameter of the generated method.  Such a formula is outside the export subset
+                   (Export/Model.v no_self is a hypothesis of every C15 theorem, Run.v stbl_okb checks it; export_model now
+                   documents the limitation): export must REFUSE the model with a ValueError naming 'self'.  The generator
+                   names a fresh local `self` with probability P_SELF; for such a model (refusal_expected) (P) demands the
+                   refusal of both exports instead of comparing values, (T) ties the other spaces only, (E) is not run
+  builtin_child    a child space / ItemSpace parameter named like a built-in was not prefixed: child spaces ord / vars and
+                   parameters id abs pow len hash sorted are generated.  The exporter now hands references + child spaces +
+                   parameters (own and enclosing) + cells to FormulaTransformer: the dump mirrors that list ("xtop"); Run.v
+                   wants s_top inside the namespace, so the static space of a parametrised tree gets the list without the
+                   parameters ("top"); queries on such a space object are left to (P) when an absent parameter is named
+                   like a built-in: the name then is the built-in function, which the Gallina evaluator cannot compare
+                   with an integer or does not know at all (e_case)
 """
 import os, json, glob, builtins, hashlib
 import fw
@@ -137,6 +156,13 @@ def has_binder(e):
     return False
 
 
+def refusal_expected(case):
+    """a formula of the model binds the name `self` (parameter, local, nested def, lambda parameter, comprehension
+    variable): the model is outside the export subset (documented limitation; Export/Model.v no_self) and
+    export must refuse it (self_local, repaired in /repo)"""
+    return any(G.binds_self([p for p, _ in c["params"]], c["body"]) for sp in case["spaces"] for c in sp["cells"])
+
+
 # --------------------------------------------------------------------------
 def p_oracle(case, res):
     """(P) on one case: list of failure dicts, stats"""
@@ -144,6 +170,15 @@ def p_oracle(case, res):
     st = {"queries": 0, "compared": 0, "model_err": 0}
     if res.get("build_err"):
         return None, st
+    if refusal_expected(case):
+        # not a model of the export subset: both exports must be refused, by the error that names the cause
+        for v in "ab":
+            msg = (res.get("export_err") or {}).get(v)
+            if msg is None or not (msg.startswith("ValueError:") and "'self'" in msg):
+                fails.append({"case": case["id"], "detail": "a formula binds the name `self` (outside the export subset): export must refuse the "
+                              "model with a ValueError naming 'self', but (variant %s) %s" % (v, "it exported the model" if msg is None else "it failed with " + msg),
+                              "script": repro_script(case)})
+        return fails, st
     if res.get("export_err"):
         for v, msg in res["export_err"].items():
             fails.append({"case": case["id"], "detail": "export/import of the generated package failed (variant %s): %s" % (v, msg),
@@ -175,6 +210,8 @@ def t_cases(case, res, seen, spec_asts):
     """(T) observations of one case -> (coq terms, meta), direct structural mismatches"""
     terms, metas, direct = [], [], []
     for ob in res.get("obs", []):
+        if ob.get("exc") == "ValueError" and refusal_expected(case):
+            continue        # the refusal itself ((P) checks its message); the formulas of the other spaces are tied as usual
         if ob.get("exc"):
             direct.append({"case": case["id"], "detail": "FormulaTransformer: %s %s" % (ob["exc"], ob.get("code", ""))})
             continue
@@ -240,6 +277,11 @@ def e_case(case, res):
     d = res.get("dump")
     if not d:
         return None, 0
+    # a static space of a parametrised tree has no value for the parameters: one named like a built-in IS the built-in
+    # function there (in the model and, by a class attribute, in the package), where the generated formulas mean an
+    # integer.  The Gallina evaluator knows the built-ins of Run.v py_fn only and has no == between a function and an
+    # integer (False in Python): queries on such a space object are left to (P)
+    beyond = {sid for sid, sp in enumerate(d["spaces"]) if any(k in PY_BUILTINS for k in sp["absent"])}
     tbls = []
     for sp in d["spaces"]:
         ns = G._cl(["(%s, %s)" % (G._cs(n), coq_dval(v)) for n, v in sp["ns"]])
@@ -255,7 +297,7 @@ def e_case(case, res):
     for qi, q in enumerate(case["queries"]):
         sid = d["qsid"][qi]
         ma = res["vals"]["ma"][qi]
-        if sid is None or ma[0] == "err":
+        if sid is None or ma[0] == "err" or sid in beyond:
             continue
         if q["cell"] in case.get("probes", ()):
             continue            # probe of literal-subclass references: strings / enum members are not Gallina values, (P) only
@@ -293,7 +335,8 @@ def run(tier, seed, rng):
     out.rule = ("random models of the documented export subset (static/nested/derived/parametrised spaces; literal, pickled, space- and "
                 "cells-valued references; def and lambda cells with nested lambdas, nested (recursive) defs, list comprehensions, generator "
                 "expressions, local assignments, keyword calls, local/parameter names shadowing globals and built-ins, references and cells "
-                "shadowing built-ins; cached and uncached cells; space- and model-level references whose values are instances of "
+                "shadowing built-ins; child spaces and ItemSpace parameters named like built-ins; now and then a local named `self` (export must "
+                "refuse that model); cached and uncached cells; space- and model-level references whose values are instances of "
                 "SUBCLASSES of int/float/str (IntEnum/StrEnum members of http and signal, float/str/int subclasses of harness/c15lits.py), "
                 "read by probe cells through type(r).__name__, .name, .value, methods of the subclass and arithmetic, also via inheritance, "
                 "child/referenced spaces and ItemSpaces); every cells queried at 1-2 argument tuples per access path, twice (cached "
@@ -373,11 +416,13 @@ def run(tier, seed, rng):
         obs_tops = {tuple(ob.get("top", [])) for ob in r.get("obs", [])}
         if not r.get("export_err"):
             for sp in r["dump"]["spaces"]:
-                if tuple(sp["top"]) not in obs_tops and (sp["top"] or sp["cells"]):
+                # xtop: references, child spaces, ItemSpace parameters (own and enclosing) and cells of the static space
+                if tuple(sp["xtop"]) not in obs_tops and (sp["xtop"] or sp["cells"]):
                     out.tie_mismatches.append({"case": c["id"], "model": c, "detail": "module-level names handed to FormulaTransformer for %s differ from "
-                                               "references + cells of the space: %r not among %r" % (sp["repr"], sp["top"], sorted(obs_tops))})
+                                               "references + child spaces + parameters + cells of the space: %r not among %r" % (sp["repr"], sp["xtop"], sorted(obs_tops))})
                     break
-        t, k2 = e_case(c, r)
+        # a model that binds `self` does not satisfy Run.v model_okb (no_self): no (E) for it
+        t, k2 = (None, 0) if refusal_expected(c) else e_case(c, r)
         if t:
             eterms.append(t); emeta.append((c, r)); nq += k2
     if dump_errs > max(3, len(cases) // 10):
@@ -438,7 +483,11 @@ def run(tier, seed, rng):
                         "spaces": {"total": sum(len(c["spaces"]) for c in cases),
                                    "derived": sum(1 for c in cases for s in c["spaces"] if s["bases"]),
                                    "parametrised": sum(1 for c in cases for s in c["spaces"] if s.get("params") is not None),
-                                   "nested": sum(1 for c in cases for s in c["spaces"] if s["parent"] is not None)},
+                                   "nested": sum(1 for c in cases for s in c["spaces"] if s["parent"] is not None),
+                                   "child_named_like_builtin": sum(1 for c in cases for s in c["spaces"]
+                                                                   if s["parent"] is not None and s["name"] in PY_BUILTINS),
+                                   "parameter_named_like_builtin": sum(1 for c in cases for s in c["spaces"]
+                                                                       if any(p[0] in PY_BUILTINS for p in (s.get("params") or [])))},
                         "literal_subclass_refs": {
                             "models_with_such_refs": sum(1 for c in cases if c.get("lit_refs")),
                             "refs": sum(c.get("lit_refs", 0) for c in cases),
@@ -448,6 +497,7 @@ def run(tier, seed, rng):
                                                          for rf in s["refs"] if rf[1][0] == "lit"),
                             "probe_cells": sum(1 for c in cases for s in c["spaces"] for ce in s["cells"] if ce.get("probe")),
                             "probe_queries": probe_q, "probe_queries_compared_4way": probe_cmp},
+                        "models_binding_self_refused_by_export": sum(1 for c in cases if refusal_expected(c)),
                         "uncached_cells": sum(1 for c in cases for s in c["spaces"] for ce in s["cells"] if not ce["cached"]),
                         "cells": sum(len(s["cells"]) for c in cases for s in c["spaces"]),
                         "syntax_nodes_in_tie": kinds,
@@ -457,7 +507,9 @@ def run(tier, seed, rng):
                      "the module-level-names check of the dumped namespaces only: the Gallina evaluator has no strings / enum members / "
                      "attribute access on such values, so these references are opaque in the (E) tables and probe queries are left out of (E); "
                      "probe formulas are inside the grammar, so (T) covers their transformation")
-    out.notes.append("generator rejects formulas that trigger a recorded defect (decidable predicates in c15gen.triggers): %s" % json.dumps(stats["filtered"]))
+    out.notes.append("generator rejects formulas that trigger a recorded defect (decidable predicates in c15gen.triggers: D29, and "
+                     "cpython3121_comp_sibling, a defect of CPython 3.12.1 itself - the model raises UnboundLocalError; comp_scope, comp_var, "
+                     "ifexp_order, builtin_child and self_local are repaired in /repo and generated): %s" % json.dumps(stats["filtered"]))
     for c in cases[:40]:
         for s in c["spaces"]:
             for ce in s["cells"]:
